@@ -3,12 +3,15 @@ package main
 // Types shared between the worker (harness) and the coordinator (simctl).
 // simctl includes this very file through a symlink; keep it free of imports.
 
-// SwRec is one recorded task switch: task `T`, at its `At`-th counted yield,
-// handed the token to `To`.  Forced is set when T blocked or finished.
+// SwRec is one recorded task switch: task `T`, at the `At`-th counted yield
+// inside entry `Op` of its program, handed the token to `To`.  Forced is set
+// when T blocked or finished.  Addressing by (Op, At) keeps a switch point
+// meaningful when other entries of the program are disabled by the minimiser.
 type SwRec struct {
 	T      int8   `json:"t"`
 	To     int8   `json:"to"`
 	Forced bool   `json:"f,omitempty"`
+	Op     uint32 `json:"op"`
 	At     uint32 `json:"at"`
 }
 
